@@ -6,6 +6,16 @@ F = "/vfs/f.md"
 
 
 def doc_of(case):
+    tpl = case["params"].get("template")
+    if tpl:
+        out, k = [], 0
+        for part in tpl:
+            if isinstance(part, str):
+                out.append(part)
+            else:
+                out.append(part[1] * case["vars"][f"n{k}"])
+                k += 1
+        return "".join(out)
     sk = case["params"].get("skeleton", "")
     out = list(sk)
     for k, h in enumerate(case["params"].get("holes", [])):
@@ -271,7 +281,9 @@ A, B = "/vfs/a.md", "/vfs/b.md"
 
 
 def docs_of_c13(case):
-    p = case["params"]
+    p = dict(case["params"])
+    if p.get("seconds"):
+        p["sk2"], p["holes2"] = p["seconds"][case["vars"]["j"]], []
     n1 = len(p["holes1"])
     cells = [case["vars"][f"c{i}"] for i in range(n1 + len(p["holes2"]))]
     d1 = list(p["sk1"])
